@@ -5,9 +5,9 @@ VERIF = os.path.dirname(os.path.dirname(os.path.abspath(__file__)))
 
 TV = "TLC model checking of the TLA+ module + TLC trace validation of traces recorded from the real code (deterministic follower evaluating the property's step predicate on every event)"
 CHECKS = {
- "C01": dict(level="model_checking", design="4/C01", technique="TLA+ MC_Lease exhaustive (TLC) + TLC trace validation (LeaseTrace) of scenarios replayed into Pool::allocate_address and dhcp::handle_pkt",
+ "C01": dict(level="model_checking", design="4/C01", technique="TLA+ MC_Lease exhaustive (TLC) + TLC trace validation (LeaseTrace) of scenarios replayed into Pool::allocate_address, into dhcp::handle_pkt, and through the real DhcpService on a veth pair",
    text="TLC proves P01 on every transition of MC_Lease (all interleavings of 2-3 clients x 3 addresses x 4 pools x ticks x restarts, unbounded time), and the same predicate C01Step is evaluated by TLC on every event of hundreds of histories replayed into the real lease store (directed, TLC-simulated and seeded random, incl. boundary seconds, pool changes, restarts).",
-   note="bounded constants in MC; implementation bound by trace validation only for the histories driven; harness projection (own SQL read of the lease table, timestamp shifting as clock) trusted"),
+   note="bounded constants in MC; implementation bound by trace validation only for the histories driven; three levels: Pool, handle_pkt, and the running service (frames on a veth pair, live configuration swap, the service's own lease file); harness projection (own SQL read of the lease table, timestamp shifting as clock) trusted"),
  "C09": dict(level="model_checking", design="4/C09", technique="TLA+ MC_Lease exhaustive (TLC) + TLC trace validation (LeaseTrace)",
    text="C09Step (keep held address / named held address / refusal only on exhaustion) is an action property of MC_Lease and is evaluated on every recorded allocation step of the real Pool and handle_pkt; the generator is biased to roaming clients, shrinking pools and one-free-address pools.",
    note="as C01; the open finding C09-1 is also a named disjunct (Known_C09_1) of the model so MC documents the deviation"),
@@ -29,9 +29,9 @@ CHECKS = {
  "C11": dict(level="model_checking", design="4/C11", technique="TLA+ DhcpPolicy!ModelOpts evaluated by TLC for every recorded handle_pkt reply (PolicyTrace) + TLC check of the C11 clauses on the model over an enumerated family",
    text="TLC checks only-requested / null-removes / inner-overrides-outer on the model over an enumerated family, and for each generated (configuration, request) compares the option map of the real reply, projected onto symbolic values by the harness's own RFC encoders, with ModelOpts(config, request).",
    note="value alphabet of two values + null per option over ten option codes; empty default search list accepted either way"),
- "C12": dict(level="model_checking", design="4/C12", technique="TLA+ DhcpWire: TLC model-checks the RFC 3396 reference chunking over boundary lengths and validates traces of Dhcp::serialise / dhcppkt::parse / Fragment::new_udp4 / get_broadcast_flag (DhcpWireTrace)",
+ "C12": dict(level="model_checking", design="4/C12", technique="TLA+ DhcpWire: TLC model-checks the RFC 3396 reference chunking over boundary lengths and validates traces of Dhcp::serialise / dhcppkt::parse / Fragment::new_udp4 / get_broadcast_flag (DhcpWireTrace) and of the frames the real DhcpService puts on a veth pair (DhcpFrameTrace)",
    text="TLC enumerates option multisets over the boundary lengths (0,1,2,254..257,509..512,765,1500), proves the reference chunking carries them and refutes the truncating encoder; every case plus random and decoder-image messages is encoded by the real code, walked by an independent TLV walker and decoded again, and TLC checks stream arithmetic, header and option equality; frames: lengths and both one's-complement checksums recomputed by TLC (incl. directed double-carry payloads); broadcast bit for sampled (quick) or all 65536 (thorough) flag values.",
-   note="fidelity decided over projections (walker, splitter, digests) computed by the harness"),
+   note="fidelity decided over projections (walker, splitter, digests) computed by the harness; the destination rule (limited broadcast iff the broadcast bit) is decided on captured frames of the running service"),
  "C04": dict(level="model_checking", design="4/C04", technique="TLA+ DnsWire: TLC model-checks the size-limited emission design over all small size vectors and validates traces of DNSPkt::serialise_with_size (DnsWireTrace); transport limits end-to-end when the DNS rig is available",
    text="TLC checks the C04 clauses on the emission model for every record-size vector (and refutes the count-splice variant), then evaluates them on every response produced by the real serialise_with_size for messages whose unlimited encoding lands at limit-1/limit/limit+1 and far beyond, as parsed by an independent walker.",
    note="function level decides well-formedness/limit/TC/prefix for the encoder; which limit the UDP and TCP listeners pass is covered by the end-to-end rig part"),
@@ -58,7 +58,7 @@ CHECKS = {
    note="each query carries a distinct (name, type) so the receiving upstream can be attributed"),
  "C17": dict(level="model_checking", design="4/C17", technique="TLA+ Radv (what an advertisement must decode to, per erbium.conf(5) and RFC 4861/8106/8781/8910): TLC checks the model's field lemmas (MC_Radv) and derives, per recorded case, the expected advertisement and compares it with the harness's RFC decoding of what the real loader + builder + serialiser produced (RadvTrace)",
    text="For generated interface configurations (every field absent/null/value, lifetimes at every field boundary up to 2^32, 0..16 prefixes with host bits, $self6 substitution, NAT64 lengths, URLs of 0..240 octets) the advertisement built by the real code is decoded by an independent RFC decoder and TLC decides equality with the configuration: header fields, option multiset, per-option content, layout (multiples of 8, reserved bits zero, host bits zero), clamped or rejected when a value does not fit its field.",
-   note="function level through the hook radv::verif_build_ra; the periodic scheduler and the raw ICMPv6 socket are not driven; there is no interleaving to explore, the MC part covers only the arithmetic lemmas of the model"),
+   note="function level through the hook radv::verif_build_ra, and service level: the configuration goes live in the running RaAdvService and the advertisement answering a router solicitation is captured on the veth pair; the periodic (unsolicited) sender is not waited for; there is no interleaving to explore, the MC part covers only the arithmetic lemmas of the model"),
  "C05": dict(level="exploration", design="4/C05", technique="TLA+ WireGrammar (the structured input space, enumerated exhaustively by TLC) + TLC trace validation (IngestTrace: outcome in {ok, err}, every planned case fed, valid request still served) of the real decoders/handlers in a child process and of the real DNS service under hostile datagrams, TCP streams and upstream replies",
    text="TLC enumerates the product of (format x item x boundary length x fill x honesty of the declared length), DNS name shapes (self/loops/chains/forward/out-of-bounds pointers, label and name length boundaries) x 15 positions, record types x rdlengths, OPT placements, header fields x boundary values; the harness assembles a consistent packet per case and runs everything the services do with it (decode, logging accessors, handle_pkt, reply framing, cache insert and lookups hours later); plus every truncation and boundary octet at every offset of seed packets and seeded random strings; a stratified sample also goes through the real DNS listeners (UDP, TCP with lying frames), through scripted upstreams, and as frames to the real DHCP, RA and LLDP services on a veth pair, after which valid requests must be answered. Exploration, not proof: the byte-string space is sampled by structure.",
    note="outcomes panic/abort/hang are observed per input in a child process; DHCP/RA/LLDP services are also exercised with frames on a veth pair; the spec part is an input grammar and an outcome predicate, there is no interleaving to model-check"),
